@@ -121,7 +121,11 @@ class Sc:
         return {k: q for k, q in self.lin.items() if q != 0}
 
 
+N_SC_CMP = [0]   # number of scalar comparisons evaluated (a suite can assert that a computation is branch-free in values)
+
+
 def sc_cmp(op, a, b):
+    N_SC_CMP[0] += 1
     if a.v is None or b.v is None:
         raise OutOfFragment("comparison of value-dependent scalars (%r %s %r)" % (a, op, b))
     if a.v == NAN or b.v == NAN:
@@ -281,6 +285,20 @@ class SinglePass:
         return "InIt(end)" if self.stream is None else "InIt(%d/%d)" % (self.stream["pos"], len(self.stream["items"]))
 
 
+class RecSolverModel:
+    """vt::RecSolver: records the linear system written through ISolver's interface."""
+
+    def __init__(self, n):
+        self.n = n
+        self.M, self.b, self.x = {}, {}, {}
+        self.solved = False
+        self.log = []      # order of first writes: ("M", i, j) / ("b", i)
+
+    def copy(self):
+        return self
+
+
+RECSOLVER = "vt::RecSolver<"
 INIT = "vt::InIt<"
 ARCH = "vt::Arch"
 # pure integer -> scalar helpers (callers pass template constants and loop counters bounded by them, never window
@@ -498,6 +516,7 @@ class Interp:
         self.scaled = set()     # functions scaling a tracked integer by a constant (outside the order-type fragment)
         self.divzero = []       # divisions by a value known to be exactly zero (defined for IEEE types only)
         self.rawcmp = []        # scalar storage compared byte-wise instead of through T's operator==
+        self.rec_solvers = []   # recording solver models created during the current evaluation
         self.bigconv = []       # integers beyond INT_MAX converted to the scalar type (T is constructible from int)
 
     # -- lookup -----------------------------------------------------------------------
@@ -1376,6 +1395,15 @@ class Interp:
             raise OutOfFragment("unresolved constructor")
         rq = d.get("recqn", "")
         args = [self.ev(c) for c in kids(e)]
+        if rq.startswith(RECSOLVER):
+            vals = [val(a) for a in args if a is not DEFAULTARG]
+            if len(vals) != 1 or not isinstance(vals[0], int):
+                raise OutOfFragment("vt::RecSolver constructed from %r" % (vals,))
+            if vals[0] > 4096:
+                raise Thrown("std::length_error", None, e.get("l"))
+            m = RecSolverModel(vals[0])
+            self.rec_solvers.append(m)
+            return m
         if rq.startswith(INIT):
             vals = [val(a) for a in args if a is not DEFAULTARG]
             if not vals:
@@ -1509,6 +1537,8 @@ class Interp:
             raise OutOfFragment("unresolved call at line %s" % e.get("l"))
         d = ci.decl
         qn = d["qn"]
+        if d.get("recqn", "").startswith(RECSOLVER):
+            return self._recsolver_call(ci, d, e)
         if d.get("recqn", "").startswith(INIT) or (qn.startswith("vt::operator") and d.get("params") and
                                                    d["params"][0]["type"].replace("const ", "").startswith(INIT)):
             return self._init_call(ci, d, e)
@@ -1604,6 +1634,39 @@ class Interp:
                 raise OutOfFragment("no operator== for %s" % a.cls)
             return self.truth(self.call(eq, a, [box(b)]))
         raise OutOfFragment("equality of %r and %r" % (a, b))
+
+    def _recsolver_call(self, ci, d, e):
+        m = val(self.ev(ci.obj))
+        if not isinstance(m, RecSolverModel):
+            raise OutOfFragment("vt::RecSolver member on %r" % (m,))
+        name = d["name"]
+        idx = [self.rv(a) for a in ci.args]
+        if any(not isinstance(i, int) for i in idx):
+            raise OutOfFragment("vt::RecSolver::%s with a non-integer index" % name)
+        for i in idx:
+            if i < 0 or i >= m.n:
+                raise ModelUB("solver.%s(%s) outside the %d x %d system" % (name, ", ".join(map(str, idx)), m.n, m.n))
+        if name == "M":
+            key = (idx[0], idx[1])
+            if key not in m.M:
+                m.M[key] = Sc(0)
+                m.log.append(("M",) + key)
+            return LV(m.M, key)
+        if name == "b":
+            if idx[0] not in m.b:
+                m.b[idx[0]] = Sc(0)
+                m.log.append(("b", idx[0]))
+            return LV(m.b, idx[0])
+        if name == "solve":
+            m.solved = True
+            return None
+        if name == "x":
+            if not m.solved:
+                raise ModelUB("solver.x() is read before solve()")
+            if idx[0] not in m.x:
+                m.x[idx[0]] = Sc.atom(("u", idx[0]))
+            return LV(m.x, idx[0])
+        raise OutOfFragment("vt::RecSolver::%s" % name)
 
     def _init_call(self, ci, d, e):
         name = d["name"]
